@@ -27,10 +27,11 @@ class SourceFile:
         cls = self.classes.get(parts[0])
         if cls is None:
             return None, None
+        found = None
         for n in cls.body:
             if isinstance(n, ast.FunctionDef) and n.name == parts[1]:
-                return n, cls
-        return None, cls
+                found = n           # a later definition in the same class body replaces an earlier one (Python semantics)
+        return found, cls
 
     def segment(self, node):
         return ast.get_source_segment(self.text, node) or ""
